@@ -155,7 +155,7 @@ class Shapes:
         when yes, else a reason.  Coinductive on (a, b) pairs for recursive structures."""
         if _seen is None:
             _seen = set()
-        if a == b and present is None:
+        if a == b and (a[0] != "cls" or (present is None and not absent)):
             return None
         if b[0] == "prim" and b[1] in ("any", "object"):
             return None
@@ -182,6 +182,10 @@ class Shapes:
             if a[1] == "int" and b[1] == "float":
                 return None
             return f"{show(a)} is not {show(b)}"
+        if ka == "enum" and kb == "enum":
+            return None if a[1] == b[1] else f"enum {a[1]} is not enum {b[1]}"
+        if ka in ("prim", "lit") and kb == "enum":
+            return f"{b[1]}(value) raises for values outside the enumeration"
         if ka == "enum" and kb == "prim":
             base = self.types.classes[a[1]].enum_base
             return None if base == b[1] else f"enum {a[1]} is not {show(b)}"
@@ -259,18 +263,32 @@ class World:
 
     def describe(self):
         bits = []
-        for (path, k), v in sorted(self.keys.items(), key=repr):
-            bits.append(("+" if v else "-") + _pstr(path) + k)
-        for path, v in sorted(self.empty.items(), key=repr):
-            bits.append(_pstr(path) + ("[]" if v else "[..]"))
         for path, a in sorted(self.alt.items(), key=repr):
-            if path != ():
+            if path != () and not (len(path) == 1 and isinstance(path[0], str) and path[0].startswith("#")):
                 bits.append(_pstr(path) + ":" + show(a))
-        return "{" + ",".join(bits) + "}"
+        for (path, k), v in sorted(self.keys.items(), key=repr):
+            if not isinstance(k, str):
+                continue
+            bits.append(("+" if v else "-") + _pstr(path, k))
+        for path, v in sorted(self.empty.items(), key=repr):
+            bits.append((_pstr(path) or "value") + ("=[]" if v else "!=[]"))
+        return "{" + ", ".join(bits) + "}"
 
 
-def _pstr(path):
-    return "".join(f"[{p}]" if isinstance(p, int) else f".{p}" for p in path) + ("." if path else "")
+def _pstr(path, key=None):
+    out = ""
+    for p in path:
+        if isinstance(p, int):
+            out += f"[{p}]"
+        elif isinstance(p, tuple):
+            out += f".get({p[1]})"
+        elif isinstance(p, str) and p.startswith("#"):
+            out += p[1:]
+        else:
+            out += ("." if out else "") + str(p)
+    if key is not None:
+        out += ("." if out else "") + key
+    return out
 
 
 class Fork(Exception):
@@ -673,7 +691,7 @@ class HookEval:
         r = self.truth(node, w, extra)
         if r is BOTH:
             # an undetermined test that is not tied to a world constraint: remember the choice
-            key = ("choice", id(node), tuple(sorted((extra or {}).items(), key=repr)))
+            key = (("choice", id(node), tuple(sorted((extra or {}).items(), key=repr))), None)
             if key in w.keys:
                 return w.keys[key]
 
